@@ -455,7 +455,7 @@ func (env *Env) assign(s *Stmt) {
 	if isHeader(s.Name) {
 		// headers are strings; only "=" and "+=" (append) are used by the generator
 		if r.Unspec {
-			env.Vars[hdrKey(s.Name)] = Val{T: TStr, Unspec: true}
+			env.Vars[hdrKey(s.Name)] = Val{T: TStr, Unspec: true, NonEmpty: s.Op == "=" && r.T == TStr && r.NonEmpty}
 			return
 		}
 		switch s.Op {
@@ -475,7 +475,7 @@ func (env *Env) assign(s *Stmt) {
 		return
 	}
 	if r.Unspec {
-		env.Vars[s.Name] = Val{T: l.T, Unspec: true}
+		env.Vars[s.Name] = Val{T: l.T, Unspec: true, NonEmpty: l.T == TStr && r.T == TStr && r.NonEmpty && (s.Op == "=" || s.Op == "+=")}
 		return
 	}
 	switch l.T {
@@ -777,7 +777,10 @@ func (env *Env) eval(e *Expr) Val {
 	case "cat":
 		a, b := env.eval(e.A), env.eval(e.Bx)
 		if a.Unspec || b.Unspec || a.NotSet || b.NotSet {
-			return Val{T: TStr, Unspec: true} // "(null)" rendering of not-set operands is not specified
+			// "(null)" rendering of not-set operands is not specified; but whatever the rendering, an
+			// operand that is set and non-empty makes the result a set, non-empty string
+			solid := func(v Val) bool { return v.NonEmpty || (!v.Unspec && !v.NotSet && Display(v) != "") }
+			return Val{T: TStr, Unspec: true, NonEmpty: solid(a) || solid(b)}
 		}
 		return Val{T: TStr, S: Display(a) + Display(b)}
 	case "ifx":
